@@ -176,3 +176,5 @@ def check(ctx):
     shared.cancel_api_forwarding(ctx)
     shared.mutex_cancel_arm_rules(ctx)
     ctx.import_rules("C02", r"^(sync-blocker|blocker|fast-blocker|thread-park)/")
+    ctx.import_rules("C02", r"^canceled-only-if-canceled$|^self-injection$|^injected-kind$")
+    ctx.import_rules("C18", r"^io-cancel/")
